@@ -5,6 +5,7 @@ import (
 
 	"reduction.dev/reduction/proto/workerpb"
 	"reduction.dev/reduction/util/sliceu"
+	"reduction.dev/reduction/util/verifhook"
 )
 
 type checkpoint struct {
@@ -45,6 +46,7 @@ func (c *checkpoint) alignSender(senderID string) (wait func()) {
 
 	if _, ok := c.srIDs[senderID]; !ok {
 		return func() {
+			verifhook.Point("operator.align.park", senderID)
 			<-c.allBarriersReceived
 		}
 	}
